@@ -490,7 +490,10 @@ static void qr_systems(const Args &a) {
 		}
 	}
 	{   // masking proof and card-secret proof on single cards
-		SchindelhauerTMCG *T = new SchindelhauerTMCG(a.thorough() ? 8 : 5, 2, tb);
+		// kappa = 40: a changed card entry is noticed only in the rounds whose challenge bit selects it, so with few rounds
+		// an unchanged transcript survives a changed public input with probability 2^-kappa per entry (soundness error of the
+		// protocol, not a defect); 2^-40 makes that negligible for the oracle
+		SchindelhauerTMCG *T = new SchindelhauerTMCG(40, 2, tb);
 		TMCG_Card *c = new TMCG_Card(2, tb), *cc = new TMCG_Card(2, tb), *vc = new TMCG_Card(2, tb), *vcc = new TMCG_Card(2, tb);
 		TMCG_CardSecret *cs = new TMCG_CardSecret(2, tb);
 		T->TMCG_CreateOpenCard(*c, *ring, 5); T->TMCG_CreateCardSecret(*cs, *ring, 0); T->TMCG_MaskCard(*c, *cc, *cs, *ring);
